@@ -99,7 +99,9 @@ class WeaverModel:
         return Num(sym.sym('arg:' + name))
 
     def inline(self, fi: FuncInfo) -> bool:
-        return fi.cls is self.cls
+        # methods of the class, and helper functions / helper classes living in the Weaver's own module (the library functions it delegates to are
+        # the anchors the rules are phrased in: they stay calls)
+        return fi.cls is self.cls or fi.module is self.cls.module
 
     def evaluate(self, fi: FuncInfo, is_init=False, overrides: Dict[str, Val] = None) -> MethodFacts:
         oid = fresh_serial()
